@@ -13,6 +13,7 @@ BLD = "des/src/runtime/builder.rs"
 MT = "des/src/net/runtime/mod.rs"
 TP = "des/src/net/topology.rs"
 EV = "des/src/net/runtime/events.rs"
+CTX = "des/src/net/runtime/ctx.rs"
 
 # (id, property, file, regex, replacement, expectation)   expectation: "kill" (exit 1 expected) | "keep" (exit 0 expected)
 PACK = [
@@ -57,6 +58,10 @@ PACK = [
     ("gw-no-lastgate", "C08", EV, r"            msg\.header\.last_gate = Some\(next\.endpoint\.clone\(\)\);\n", "", "kill"),
     ("gw-deliver-next-to-last", "C08", EV, r"(            // No channel means next hop is on the same time slot,\n            // so continue\.\n)            cur = next;", r"\1            if next.next_hop().is_none() { break; }\n            cur = next;", "kill"),
     ("eq-gw-clone", "C08", EV, r"(            // so continue\.\n)            cur = next;", r"\1            cur = next.clone();", "keep"),
+    ("sd-reset-twice", "C09", CTX, r"        rt\.app\.error\.extend\(module\.reset\(\)\.err\(\)\);", "        rt.app.error.extend(module.reset().err());\n        rt.app.error.extend(module.reset().err());", "kill"),
+    ("sd-no-restart", "C09", CTX, r"        if let Some\(restart\) = restart \{", "        if let Some(restart) = None::<SimTime> {", "kill"),
+    ("sd-drop-on-next-owner", "C09", EV, r"            if !cur\.endpoint\.owner\(\)\.is_active\(\) \{", "            if !next.endpoint.owner().is_active() {", "kill"),
+    ("eq-sd-rename", "C09", CTX, r"        if let Some\(restart\) = restart \{\n            rt\.add_event\(\n                NetEvents::ModuleRestartEvent\(ModuleRestartEvent \{\n                    module: module\.clone\(\),\n                \}\),\n                restart,", "        if let Some(at) = restart {\n            rt.add_event(\n                NetEvents::ModuleRestartEvent(ModuleRestartEvent {\n                    module: module.clone(),\n                }),\n                at,", "keep"),
     # equivalent edits: must stay green
     ("eq-swap-t0-t1", "C01", CQ, r"                self\.t0 \+= self\.t;\n                self\.t1 \+= self\.t;\n            \}", "                self.t1 += self.t;\n                self.t0 += self.t;\n            }", "keep"),
     ("eq-extra-stmt", "C01", CQ, r"\n        self\.len \+= 1;", "\n        self.len += 1;\n        let _dbg = self.len;", "keep"),
